@@ -289,6 +289,16 @@ def run(ctx):
         chk.unrecognised("C10.b", "<anchor> FlushState", "missing")
 
     # ---------------- C10.c
+    # what the mode says reaches every counter and gauge message: the timestamp handed to write_counter / write_gauge is the
+    # result of get_aggregation_timestamp() itself on every path (not replaced by None for some names)
+    sf_ = (d.method(STATE, "flush") or [None])[0]
+    if sf_ is not None:
+        for c in nonforeign_calls(sf_):
+            if c.fn is sf_ and c.is_("PayloadWriter::write_counter", "PayloadWriter::write_gauge") and len(c.args) >= 4:
+                ts = strip_sym(arg_syms(c)[3])
+                alts_ = [strip_sym(x) for x in ts[1]] if ts[0] == "phi" else [ts]
+                okts = all(sym_is_call(x, "State::get_aggregation_timestamp") for x in alts_)
+                chk.ob("C10.c", f"{sf_.path} [{callee_method_name(c)} timestamp]", okts, "timestamp = self.get_aggregation_timestamp()" if okts else f"the timestamp written is {sym_str(ts)[:70]}: for some metrics it does not follow the aggregation mode (a metric is sent without a timestamp in a mode documented to send one, or the reverse)", c.loc(), nontrivial=False)
     am = d.adts.get(f"{D}::builder::AggregationMode")
     gat = one_method(chk, "C10.c", d, STATE, "get_aggregation_timestamp")
     if am and gat:
